@@ -204,7 +204,7 @@ structure Conv (V : Type) where
 
 inductive AVal (V : Type) where
   | plain (v : V) | dict (items : List (Key × V)) | set (keys : List Key)
-  deriving Repr
+  deriving Repr, DecidableEq
 
 /-- `_attrs_origins[attr]`: `"<n/a>"`, `"<skipped column>"`, a coordinate, `{title: coordinate}` -/
 inductive Origin where
